@@ -1,5 +1,239 @@
+/-
+  AITB.Props.C17 — saved models, experiences and policies load back identically (C17).
+
+  Statements are about the token-level codec model `AITB.Model.Codec`, for every `DblIO D` (any
+  representation of doubles and of their stream formatting), every shape, every object and every
+  input stream.  See docs/C17.md for the reading of each theorem.
+-/
 import AITB.Model.Codec
 import AITB.Model.CodecNum
 import AITB.Gen.IOPrec
 namespace AITB.Codec
+
+variable {D : Type}
+
+/-! ### reader combinators -/
+
+@[simp] theorem bind_apply {α β} (m : Rd α) (f : α → Rd β) (s : Stream) :
+    Rd.bind m f s = match m s with | .ok a s' => f a s' | .bad e => .bad e := rfl
+@[simp] theorem pure_apply {α} (a : α) (s : Stream) : Rd.pure a s = .ok a s := rfl
+@[simp] theorem need_true (s : Stream) : need true s = .ok () s := rfl
+@[simp] theorem need_false (s : Stream) : need false s = .bad .failbit := rfl
+
+/-- a writer/reader pair for one value: reading what was written gives the value back and leaves the rest -/
+def RoundTrips {α} (rd : Rd α) (wr : α → Stream) (x : α) : Prop := ∀ rest, rd (wr x ++ rest) = .ok x rest
+
+theorem rep_roundtrip {α} (rd : Rd α) (wr : α → Stream) :
+    ∀ (xs : List α), (∀ x ∈ xs, RoundTrips rd wr x) → RoundTrips (rep rd xs.length) (fun l => l.flatMap wr) xs
+  | [], _, rest => by simp [rep]
+  | x :: xs, h, rest => by
+    have hx := h x (List.mem_cons_self)
+    have ih := rep_roundtrip rd wr xs (fun y hy => h y (List.mem_cons_of_mem _ hy)) rest
+    simp only [RoundTrips] at hx ih
+    simp [rep, List.flatMap_cons, List.append_assoc, hx, ih]
+
+theorem rep_roundtrip' {α} (rd : Rd α) (wr : α → Stream) (n : Nat) (xs : List α) (hn : xs.length = n)
+    (h : ∀ x ∈ xs, RoundTrips rd wr x) : RoundTrips (rep rd n) (fun l => l.flatMap wr) xs := by
+  subst hn; exact rep_roundtrip rd wr xs h
+
+/-- what `rep` returns on ANY stream: the right number of items, each satisfying what one read guarantees -/
+theorem rep_ok {α} (rd : Rd α) (P : α → Prop) (hP : ∀ s a s', rd s = .ok a s' → P a) :
+    ∀ n s xs s', rep rd n s = .ok xs s' → xs.length = n ∧ ∀ x ∈ xs, P x
+  | 0, s, xs, s', h => by simp [rep] at h; rcases h with ⟨rfl, rfl⟩; simp
+  | n + 1, s, xs, s', h => by
+    simp only [rep, bind_apply] at h
+    cases h1 : rd s with
+    | bad e => simp [h1] at h
+    | ok a s1 =>
+      simp only [h1] at h
+      cases h2 : rep rd n s1 with
+      | bad e => simp [h2] at h
+      | ok r s2 =>
+        simp only [h2, pure_apply] at h
+        have ih := rep_ok rd P hP n s1 r s2 h2
+        injection h with h3 h4
+        subst h3
+        refine ⟨by simp [ih.1], ?_⟩
+        intro x hx
+        rcases List.mem_cons.mp hx with rfl | hx
+        · exact hP _ _ _ h1
+        · exact ih.2 x hx
+
+/-! ### unsigned integers: `is >> n` inverts `os << n` -/
+
+theorem evalDigits_digitsAux : ∀ (f n : Nat) (acc : List Nat), n < f →
+    (digitsAux f n acc).foldl (fun a d => a * 10 + d) 0 = acc.foldl (fun a d => a * 10 + d) n
+  | 0, n, acc, h => by omega
+  | f + 1, n, acc, h => by
+    unfold digitsAux
+    split
+    · simp
+    · rename_i h10
+      rw [evalDigits_digitsAux f (n / 10) (n % 10 :: acc) (by omega)]
+      simp only [List.foldl_cons]
+      congr 1
+      omega
+
+theorem evalDigits_digits (n : Nat) : evalDigits (digits n) = n := by
+  unfold evalDigits digits
+  rw [evalDigits_digitsAux (n + 1) n [] (by omega)]
+  rfl
+
+theorem digitsAux_lt10 : ∀ (f n : Nat) (acc : List Nat), (∀ d ∈ acc, d < 10) → ∀ d ∈ digitsAux f n acc, d < 10
+  | 0, n, acc, h => by simpa [digitsAux] using h
+  | f + 1, n, acc, h => by
+    unfold digitsAux
+    split
+    · rename_i h10
+      intro d hd
+      rcases List.mem_cons.mp hd with rfl | hd
+      · exact h10
+      · exact h d hd
+    · apply digitsAux_lt10
+      intro d hd
+      rcases List.mem_cons.mp hd with rfl | hd
+      · omega
+      · exact h d hd
+
+theorem digits_lt10 (n : Nat) : ∀ d ∈ digits n, d < 10 := digitsAux_lt10 _ _ [] (by simp)
+
+theorem digitsAux_ne_nil : ∀ (f n : Nat) (acc : List Nat), acc ≠ [] ∨ 0 < f → digitsAux f n acc ≠ []
+  | 0, n, acc, h => by
+    rcases h with h | h
+    · simpa [digitsAux] using h
+    · omega
+  | f + 1, n, acc, _ => by
+    unfold digitsAux
+    split
+    · simp
+    · exact digitsAux_ne_nil f _ _ (Or.inl (by simp))
+
+theorem digits_ne_nil (n : Nat) : digits n ≠ [] := digitsAux_ne_nil _ _ _ (Or.inr (by omega))
+
+theorem digitChar_toNat (d : Nat) (h : d < 10) : (digitChar d).toNat = 48 + d := by
+  have : d = 0 ∨ d = 1 ∨ d = 2 ∨ d = 3 ∨ d = 4 ∨ d = 5 ∨ d = 6 ∨ d = 7 ∨ d = 8 ∨ d = 9 := by omega
+  rcases this with rfl | rfl | rfl | rfl | rfl | rfl | rfl | rfl | rfl | rfl <;> rfl
+
+theorem isDig_digitChar (d : Nat) (h : d < 10) : isDig (digitChar d) = true := by
+  simp [isDig, digitChar_toNat d h]; omega
+
+theorem digitVal_digitChar (d : Nat) (h : d < 10) : digitVal (digitChar d) = d := by
+  simp [digitVal, digitChar_toNat d h]
+
+theorem spanP_all (p : Char → Bool) : ∀ (l : List Char), (∀ c ∈ l, p c = true) → spanP p l = (l, [])
+  | [], _ => rfl
+  | c :: cs, h => by
+    have hc := h c (List.mem_cons_self)
+    have ih := spanP_all p cs (fun x hx => h x (List.mem_cons_of_mem _ hx))
+    simp [spanP, hc, ih]
+
+theorem digitChar_ne_sign (d : Nat) (h : d < 10) : digitChar d ≠ '-' ∧ digitChar d ≠ '+' ∧ digitChar d ≠ '@' := by
+  have : d = 0 ∨ d = 1 ∨ d = 2 ∨ d = 3 ∨ d = 4 ∨ d = 5 ∨ d = 6 ∨ d = 7 ∨ d = 8 ∨ d = 9 := by omega
+  rcases this with rfl | rfl | rfl | rfl | rfl | rfl | rfl | rfl | rfl | rfl <;> decide
+
+/-- `is >> n` reads back exactly what `os << n` wrote, consuming the whole token -/
+theorem scanN_printN (n : Nat) (hn : n < two64) : scanN (printN n) = some (n, []) := by
+  have hne := digits_ne_nil n
+  have hlt := digits_lt10 n
+  unfold printN
+  cases hd : digits n with
+  | nil => exact absurd hd hne
+  | cons d ds =>
+    rw [hd] at hlt
+    have hd10 : d < 10 := hlt d (List.mem_cons_self)
+    have hs := digitChar_ne_sign d hd10
+    have hall : ∀ c ∈ (d :: ds).map digitChar, isDig c = true := by
+      intro c hc
+      rcases List.mem_map.mp hc with ⟨x, hx, rfl⟩
+      exact isDig_digitChar x (hlt x hx)
+    have hval : ((d :: ds).map digitChar).map digitVal = d :: ds := by
+      rw [List.map_map]
+      conv => rhs; rw [← List.map_id (d :: ds)]
+      apply List.map_congr_left
+      intro x hx
+      simp [digitVal_digitChar x (hlt x hx)]
+    have hev : evalDigits (d :: ds) = n := by rw [← hd]; exact evalDigits_digits n
+    have hsplit : splitSign ((d :: ds).map digitChar) = (false, (d :: ds).map digitChar) := by
+      simp only [List.map_cons, splitSign]
+      split
+      · rename_i r heq; injection heq with h1 _; exact absurd h1 hs.1
+      · rename_i r heq; injection heq with h1 _; exact absurd h1 hs.2.1
+      · rfl
+    unfold scanN
+    simp only [hsplit, spanP_all isDig _ hall, hval, hev]
+    simp [Nat.not_le.mpr hn]
+
+theorem rdN_printN (n : Nat) (hn : n < two64) (rest : Stream) : rdN (printN n :: rest) = .ok n rest := by
+  simp [rdN, scanN_printN n hn, pushBack]
+
+/-! ### doubles: the round-trip hypothesis, value by value -/
+
+/-- `is >> d` returns exactly `d` from the text `os << d` produced under precision `p`, consuming all of it.
+    For an IEEE double and `p ≥ 17 = max_digits10` this is the classical shortest-round-trip result
+    (trusted; the driver evaluates it on every value it sees). -/
+def RT (io : DblIO D) (p : Nat) (d : D) : Prop := io.scanD (io.printD p d) = some (d, [])
+
+theorem rdD_printD (io : DblIO D) (p : Nat) (d : D) (h : RT io p d) (rest : Stream) :
+    rdD io (io.printD p d :: rest) = .ok d rest := by
+  simp [rdD, RT] at *; simp [h, pushBack]
+
+theorem rt_N (n : Nat) (hn : n < two64) : RoundTrips rdN (fun n => [printN n]) n := fun rest => by
+  simpa using rdN_printN n hn rest
+
+theorem rt_D (io : DblIO D) (p : Nat) (d : D) (h : RT io p d) : RoundTrips (rdD io) (fun d => [io.printD p d]) d :=
+  fun rest => by simpa using rdD_printD io p d h rest
+
+theorem flatMap_singleton {α β} (f : α → β) (l : List α) : l.flatMap (fun x => [f x]) = l.map f := by
+  induction l with
+  | nil => rfl
+  | cons a l ih => simp [List.flatMap_cons, ih]
+
+/-! ### dense matrices and tables -/
+
+def AllMat {α} (P : α → Prop) (m : Mat α) : Prop := ∀ r ∈ m, ∀ x ∈ r, P x
+def AllMat3 {α} (P : α → Prop) (m : List (Mat α)) : Prop := ∀ t ∈ m, AllMat P t
+
+theorem shapeB_iff {α} (rows cols : Nat) (m : Mat α) :
+    shapeB rows cols m = true ↔ m.length = rows ∧ ∀ r ∈ m, r.length = cols := by
+  simp [shapeB, List.all_eq_true]
+theorem shape3B_iff {α} (k rows cols : Nat) (m : List (Mat α)) :
+    shape3B k rows cols m = true ↔ m.length = k ∧ ∀ t ∈ m, shapeB rows cols t = true := by
+  simp [shape3B, List.all_eq_true]
+
+theorem rt_vec (io : DblIO D) (p cols : Nat) (v : List D) (hl : v.length = cols) (h : ∀ d ∈ v, RT io p d) :
+    RoundTrips (rep (rdD io) cols) (wrVec io p) v := by
+  have := rep_roundtrip' (rdD io) (fun d => [io.printD p d]) cols v hl (fun d hd => rt_D io p d (h d hd))
+  intro rest
+  have h2 := this rest
+  simp only [flatMap_singleton] at h2
+  exact h2
+
+theorem rt_mat (io : DblIO D) (p rows cols : Nat) (m : Mat D) (hs : shapeB rows cols m = true)
+    (h : AllMat (RT io p) m) : RoundTrips (rdMat io rows cols) (wrMat io p) m := by
+  rw [shapeB_iff] at hs
+  exact rep_roundtrip' _ (wrVec io p) rows m hs.1 (fun r hr => rt_vec io p cols r (hs.2 r hr) (h r hr))
+
+theorem rt_mat3 (io : DblIO D) (p k rows cols : Nat) (m : List (Mat D)) (hs : shape3B k rows cols m = true)
+    (h : AllMat3 (RT io p) m) : RoundTrips (rdMat3 io k rows cols) (wrMat3 io p) m := by
+  rw [shape3B_iff] at hs
+  exact rep_roundtrip' _ (wrMat io p) k m hs.1 (fun t ht => rt_mat io p rows cols t (hs.2 t ht) (h t ht))
+
+theorem rt_nats (cols : Nat) (v : List Nat) (hl : v.length = cols) (h : ∀ n ∈ v, n < two64) :
+    RoundTrips (rep rdN cols) (fun r => r.map printN) v := by
+  have := rep_roundtrip' rdN (fun n => [printN n]) cols v hl (fun n hn => rt_N n (h n hn))
+  intro rest
+  have h2 := this rest
+  simp only [flatMap_singleton] at h2
+  exact h2
+
+theorem rt_tab (rows cols : Nat) (m : Mat Nat) (hs : shapeB rows cols m = true)
+    (h : AllMat (· < two64) m) : RoundTrips (rdTab rows cols) wrTab m := by
+  rw [shapeB_iff] at hs
+  exact rep_roundtrip' _ (fun r => r.map printN) rows m hs.1 (fun r hr => rt_nats cols r (hs.2 r hr) (h r hr))
+
+theorem rt_tab3 (k rows cols : Nat) (m : List (Mat Nat)) (hs : shape3B k rows cols m = true)
+    (h : AllMat3 (· < two64) m) : RoundTrips (rdTab3 k rows cols) wrTab3 m := by
+  rw [shape3B_iff] at hs
+  exact rep_roundtrip' _ wrTab k m hs.1 (fun t ht => rt_tab rows cols t (hs.2 t ht) (h t ht))
+
 end AITB.Codec
